@@ -1,6 +1,9 @@
 package main
 
 import (
+	"os"
+	"unicode"
+	"fmt"
 	"go/ast"
 	"go/constant"
 	"go/token"
@@ -151,6 +154,7 @@ func setStr(m map[string]bool) string {
 }
 
 func runC18(c *Ctx) {
+	c18Chars(c)
 	s2k, p1 := stringMapLiteral(c, fmtPkg, "symbolToKeyword")
 	k2s, _ := stringMapLiteral(c, fmtPkg, "keywordToSymbol")
 	if len(s2k) < 8 || len(k2s) < 8 {
@@ -393,4 +397,135 @@ func tokenConstName(c *Ctx, cst *ssa.Const) string {
 		}
 	}
 	return cst.String()
+}
+
+
+// c18Chars: R5 - the expander separates a keyword from whatever could otherwise lex as part of it.
+func c18Chars(c *Ctx) {
+	c.rule("C18-R5", "CHR: when `glyph expand` replaces a symbol by its keyword it writes a space before every following character that the expanded lexer accepts inside an identifier (decided for each byte 0..127 by folding the formatter's condition and the lexer's isIdentifierChar): otherwise `$_tmp` becomes `let_tmp`, one identifier, and the expanded text no longer parses to the same tree. CanonicalizeSource decides that a line is blank on its trimmed text (a whitespace-only line is written out empty, so it must count as blank, or formatting twice differs from formatting once)")
+	tr := c.mustFn("C18-R5", fmtPkg, "transform")
+	idc := c.fn(parserPkg, "isIdentifierChar")
+	if tr != nil {
+		// the keyword write: WriteString of a value looked up in the mappings parameter
+		var start *ssa.BasicBlock
+		eachInstr(tr, func(b *ssa.BasicBlock, _ int, ins ssa.Instruction) {
+			call, ok := ins.(*ssa.Call)
+			if !ok || callName(call) != "strings.Builder.WriteString" || start != nil {
+				return
+			}
+			if derivesFrom(call.Call.Args[1], func(v ssa.Value) bool {
+				lk, ok := v.(*ssa.Lookup)
+				if !ok {
+					return false
+				}
+				if _, isMap := lk.X.Type().Underlying().(*types.Map); !isMap {
+					return false
+				}
+				// expand mode looks up the one-character string made from the current byte (compact mode looks up a word)
+				return derivesFrom(lk.Index, func(k ssa.Value) bool {
+					cv, ok := k.(*ssa.Convert)
+					if !ok {
+						return false
+					}
+					ft, ok := cv.X.Type().Underlying().(*types.Basic)
+					tt, ok2 := cv.Type().Underlying().(*types.Basic)
+					return ok && ok2 && tt.Kind() == types.String && (ft.Kind() == types.Uint8 || ft.Kind() == types.Int32)
+				})
+			}) {
+				// expand mode: the looked-up key is a one-character string built from the current byte
+				start = b
+			}
+		})
+		if start == nil {
+			c.undecided("C18-R5: the keyword write was not found in transform")
+		} else {
+			isNext := func(v ssa.Value) bool {
+				// source[i+1]: an index into a string / byte slice whose index is an addition
+				var seq, idx ssa.Value
+				switch x := v.(type) {
+				case *ssa.Lookup:
+					seq, idx = x.X, x.Index
+				case *ssa.Index:
+					seq, idx = x.X, x.Index
+				default:
+					return false
+				}
+				if bt, ok := seq.Type().Underlying().(*types.Basic); ok && bt.Kind() == types.String {
+					_, isAdd := idx.(*ssa.BinOp)
+					return isAdd
+				}
+				return false
+			}
+			isSpaceWrite := func(ins ssa.Instruction) bool {
+				call, ok := ins.(*ssa.Call)
+				if !ok || callName(call) != "strings.Builder.WriteByte" {
+					return false
+				}
+				k, ok := constInt(call.Call.Args[1])
+				return ok && k == ' '
+			}
+			var missing []byte
+			gaveUp := false
+			for ch := 0; ch < 128; ch++ {
+				ident := unicode.IsLetter(rune(ch)) || unicode.IsDigit(rune(ch)) || ch == '_'
+				if idc != nil {
+					if r, ok := evalCharPredicate(idc, byte(ch)); ok {
+						ident = r
+					}
+				}
+				if !ident {
+					continue
+				}
+				e := &chrEval{c: byte(ch), isChar: isNext}
+				if os.Getenv("GV_DEBUG_CHR") != "" && ch == 'a' {
+					println("start block", start.Index); debugChr = true
+				}
+				sp := e.walk(start, isSpaceWrite, func(b *ssa.BasicBlock) bool {
+					// back at the scanning loop: the keyword has been handled
+					for _, s := range b.Succs {
+						if s.Dominates(start) && s != start {
+							return true
+						}
+					}
+					return false
+				})
+				if e.unknown {
+					gaveUp = true
+					break
+				}
+				if !sp {
+					missing = append(missing, byte(ch))
+				}
+			}
+			if gaveUp {
+				c.info("C18-R5", fnKey(tr)+"#keyword-separated-from-identifier-characters", tr.Pos(), "the condition for writing a space after an expanded keyword is not of a form this rule folds")
+			} else {
+				c.ob("C18-R5", fnKey(tr)+"#keyword-separated-from-identifier-characters", tr.Pos(), len(missing) == 0, "after an expanded keyword no space is written before "+fmt.Sprintf("%q", string(missing))+", which the lexer accepts inside an identifier: the keyword and the following name fuse into one identifier (`$_tmp = 1` expands to `let_tmp = 1`)")
+			}
+		}
+	}
+	// blankness on the trimmed text
+	if cs := c.fn(fmtPkg, "CanonicalizeSource"); cs != nil {
+		n := 0
+		eachInstr(cs, func(_ *ssa.BasicBlock, _ int, ins ssa.Instruction) {
+			bo, ok := ins.(*ssa.BinOp)
+			if !ok || (bo.Op != token.EQL && bo.Op != token.NEQ) {
+				return
+			}
+			var other ssa.Value
+			if s, ok := constString(bo.Y); ok && s == "" {
+				other = bo.X
+			} else if s, ok := constString(bo.X); ok && s == "" {
+				other = bo.Y
+			} else {
+				return
+			}
+			n++
+			trimmed := derivesFrom(other, func(v ssa.Value) bool {
+				call, ok := v.(*ssa.Call)
+				return ok && strings.HasPrefix(callName(call), "strings.Trim")
+			})
+			c.ob("C18-R5", fnKey(cs)+"#blank-line-decided-on-trimmed-text-"+itoa(n), bo.Pos(), trimmed, "a line is compared with the empty string before being trimmed: a line of spaces or tabs is not counted as blank but is written out empty, so the blank-line rules (no leading blank, at most one in a row) are applied by the second run of the formatter and fmt(fmt(x)) != fmt(x)")
+		})
+	}
 }
